@@ -41,7 +41,9 @@ CfgOf(e) == [policy |-> e.policy, drain |-> e.drain, retries |-> e.retries, ver 
 NeedOf(e) == IF e.variant \in {"wild", "shared", "badfilter", "nolocalshared"} THEN e.variant ELSE "none"
 
 AttrsOf(e) == [NoAttrs EXCEPT !.qos = IF e.kind = "pub" THEN e.qos ELSE 0, !.key = e.op, !.tmo = e.tmo, !.topic = e.topic, !.ualias = e.alias,
-                              !.retain = e.retain = 1, !.need = NeedOf(e), !.n = e.entries]
+                              !.retain = e.retain = 1, !.need = NeedOf(e), !.n = e.entries,
+                              \* a publish that carries nothing but topic and payload: its size on the wire is predicted exactly
+                              !.plen = IF e.kind = "pub" /\ e.variant = "" THEN e.len ELSE -1]
 
 PacketOf(e) == [type |-> e.type, pid |-> e.pid, rc |-> e.rc, codes |-> e.codes, sp |-> e.sp, rm |-> e.rm, ka |-> e.ka, tam |-> e.tam, mqos |-> e.mqos,
                 mps |-> e.mps, ret |-> e.ret, wild |-> e.wild, subid |-> e.subid, shared |-> e.shared, acid |-> e.acid, sei |-> e.sei,
@@ -51,7 +53,7 @@ Modelled == {"CONNACK", "PUBLISH", "PUBACK", "PUBREC", "PUBREL", "PUBCOMP", "SUB
 
 PlanOf(e) == [i \in 1..e.nfull |-> "c"] \o (IF e.partial = 1 THEN <<"f">> ELSE <<>>)
 
-IsCall(e) == e.ev \in {"Submit", "UserDisconnect", "Open", "Close", "Service", "WriteDone", "Rx", "Reset", "NextSvc"}
+IsCall(e) == e.ev \in {"Submit", "UserDisconnect", "Open", "Close", "Service", "WriteDone", "Rx", "Reset", "NextSvc", "Cursor"}
 
 ----------------------------------------------------------------------------------------------------
 \* projection of the specification state onto the recorded one
@@ -120,9 +122,12 @@ BrokenObserved(e) ==
 Pred(evs) ==
     LET c == SelectSeq(evs, LAMBDA x : x.ev = "Complete" \/ (x.ev = "Tx" /\ x.partial = 0))
     IN [i \in 1..Len(c) |-> IF c[i].ev = "Complete" THEN <<"Complete", c[i].op, c[i].ok, c[i].err>>
+                            ELSE IF c[i].type = "PUBLISH" /\ c[i].exact = 1 THEN <<"Tx", c[i].type, c[i].pid, c[i].dup, c[i].alias, c[i].size>>
                             ELSE <<"Tx", c[i].type, c[i].pid, c[i].dup>>]
 
+\* a PUBLISH whose size the specification predicts exactly must match in alias and size as well
 Seen(e) == IF e.ev = "Complete" THEN <<"Complete", e.op, e.ok, e.err>> ELSE <<"Tx", e.type, e.pid, e.dup>>
+SeenExact(e) == IF e.ev = "Tx" /\ e.type = "PUBLISH" THEN <<"Tx", e.type, e.pid, e.dup, e.alias, e.size>> ELSE Seen(e)
 
 RemoveFirst(q, x) ==
     LET idx == {i \in 1..Len(q) : q[i] = x}
@@ -146,6 +151,8 @@ Apply(e) ==
              LET r == Service(es, e.t, 0, PlanOf(e), e.out > 0, SeqToSet(e.vfail))
              IN [s |-> r.s, res |-> r.res, evs |-> r.evs, ok |-> r.valid]
       [] e.ev = "WriteDone" -> adm(WriteCompletion(es, e.t))
+      \* (instrument) the harness placed the allocator's cursor: a position the engine reaches by itself after enough operations
+      [] e.ev = "Cursor" -> [s |-> [es EXCEPT !.nextPid = e.v, !.now = e.t], res |-> "ok", evs |-> <<>>, ok |-> TRUE]
       [] e.ev = "Reset" -> adm(Reset(es, e.t, SetToSortedSeq(DOMAIN es.ops)))
       [] e.ev = "Rx" ->
              IF e.decoded = 1 /\ e.type \in Modelled THEN adm(Recv(es, e.t, PacketOf(e)))
@@ -181,7 +188,8 @@ Step(e) ==
                                                 \cup {<<e.ev, r.res>>}
                                                 \cup (IF e.ev = "Rx" THEN {<<"Rx", e.type, r.res>>} ELSE {})]
     ELSE IF e.ev = "Complete" \/ (e.ev = "Tx" /\ e.partial = 0) THEN
-        IF \E i \in 1..Len(pend) : pend[i] = Seen(e) THEN /\ pend' = RemoveFirst(pend, Seen(e)) /\ UNCHANGED <<es, skip, out>>
+        IF \E i \in 1..Len(pend) : pend[i] = SeenExact(e) THEN /\ pend' = RemoveFirst(pend, SeenExact(e)) /\ UNCHANGED <<es, skip, out>>
+        ELSE IF \E i \in 1..Len(pend) : pend[i] = Seen(e) THEN /\ pend' = RemoveFirst(pend, Seen(e)) /\ UNCHANGED <<es, skip, out>>
         ELSE /\ out' = Drift(e, "observed-not-predicted", ToString(Seen(e))) /\ skip' = TRUE /\ UNCHANGED <<es, pend>>
     ELSE IF e.ev = "St" THEN
         LET mm == Mismatch(es, e) IN
